@@ -446,6 +446,7 @@ func runC13(r *Rec) {
 		owner := r.Rng.Intn(3)
 		disabled := r.Rng.Intn(5) == 0
 		info := tokenstypes.NewTokenInfo("utest", "adr20", sdk.OneDec(), false, sdkmath.NewInt(supply), sdkmath.NewInt(capv), sdk.ZeroDec(), sdkmath.OneInt(), false, false, "TST", "Test", "", 6, "", "", "", 0, sdkmath.ZeroInt(), w.addrs[owner].String(), disabled, "", "")
+
 		if err := tk.UpsertTokenInfo(cc, info); err != nil {
 			continue
 		}
@@ -497,6 +498,15 @@ func runC13(r *Rec) {
 			}
 			continue
 		}
+		if r.Rng.Intn(5) == 0 {
+			// a token governance registered without an owner (as the registry does for basket, LP and share tokens): nobody can
+			// edit it through the owner path; the model is told owner 99
+			info.Owner = ""
+			if err := tk.UpsertTokenInfo(cc, info); err != nil {
+				continue
+			}
+			owner = 99
+		}
 		switch r.Rng.Intn(4) {
 		case 3: // governance edit (enacted UpsertTokenInfos proposal) of the registered token, then a registry mint
 			psu := []int64{0, 0, supply, supply + 5, int64(r.Rng.Intn(1000))}[r.Rng.Intn(5)]
@@ -515,6 +525,9 @@ func runC13(r *Rec) {
 			out := "err"
 			if err == nil && ti != nil {
 				no := -1
+				if ti.Owner == "" {
+					no = 99
+				}
 				for j, a := range w.addrs {
 					if a.String() == ti.Owner {
 						no = j
@@ -577,6 +590,9 @@ func runC13(r *Rec) {
 			}
 		case 1: // registry burn
 			amt := int64(r.Rng.Intn(int(supply) + 1))
+			if r.Rng.Intn(3) == 0 {
+				amt = supply // everything that was ever minted is burnt: the entry - its cap, its owner - stays
+			}
 			if amt == 0 {
 				continue
 			}
@@ -586,6 +602,13 @@ func runC13(r *Rec) {
 			ti := tk.GetTokenInfo(cc, "utest")
 			bs := bk.GetSupply(cc, "utest").Amount
 			out := "err"
+			if ti == nil {
+				r.Fail("C13/registry/entry-lost-by-a-burn", fmt.Sprintf("token utest (recorded supply %d, cap %d, owner %d): after burning %d (err=%v) the registry no longer knows the token - its cap is gone and anybody with the registration permission may register it anew", supply, capv, owner, amt, err), nil)
+				continue
+			}
+			if !ti.SupplyCap.Equal(sdkmath.NewInt(capv)) {
+				r.Fail("C13/registry/cap-changed-by-a-burn", fmt.Sprintf("cap %d -> %s", capv, ti.SupplyCap), nil)
+			}
 			if err == nil {
 				out = fmt.Sprintf("ok %s %s", ti.Supply, bs)
 			}
@@ -615,6 +638,9 @@ func runC13(r *Rec) {
 			out := "err"
 			if err == nil {
 				no := -1
+				if ti.Owner == "" {
+					no = 99
+				}
 				for j, a := range w.addrs {
 					if a.String() == ti.Owner {
 						no = j
